@@ -2,6 +2,8 @@
 
 package sctp
 
+import "math/bits"
+
 // C05 — selective acknowledgements tell the truth about what was received.
 //
 // BMC-k differential harness: the real receivePayloadQueue, started by its real
@@ -193,6 +195,17 @@ func vRPQCompareLight(q *receivePayloadQueue, m *vRPQRef, step string) {
 	vassert(q.hasChunk(p) == m.has(p), "hasChunk(probe) equals model ("+step+")")
 }
 
+// representation invariant: the bitmap holds exactly as many set bits as the queue says it
+// holds TSNs (a bit left behind by pop/advance is invisible to the observers until the
+// ring has turned once more; this catches it at once).
+func vRPQInvariant(q *receivePayloadQueue, step string) {
+	n := 0
+	for _, w := range q.tsnBitmask {
+		n += bits.OnesCount64(w)
+	}
+	vassert(n == q.size(), "bits set in the TSN bitmap equal the number of TSNs held ("+step+")")
+}
+
 // C05.L3 (BMC): accepted push(es), a pop, then a push (ring slot reuse), compare.
 func vh_C05_bmc_pop() {
 	q, m := vRPQStart()
@@ -201,6 +214,7 @@ func vh_C05_bmc_pop() {
 		vRPQPushAccepted(q, m, "push2")
 	}
 	vRPQPop(q, m, "pop1")
+	vRPQInvariant(q, "after pop")
 	vRPQPushAccepted(q, m, "push3")
 	vRPQCompareLight(q, m, "after push following pop")
 	vobserve("cum", uint64(q.getcumulativeTSN()))
@@ -216,12 +230,31 @@ func vh_C05_bmc_advance() {
 		vRPQPushAccepted(q, m, "push2")
 	}
 	vRPQAdvance(q, m, "advance")
+	vRPQInvariant(q, "after advance")
 	vRPQPushAccepted(q, m, "push3")
 	vRPQCompareLight(q, m, "after push following advance")
 	vobserve("cum", uint64(q.getcumulativeTSN()))
 	vobserve("size", uint64(q.size()))
 	vcover("end")
 }
+
+// C05.L4b: the same with a window that fills its ring exactly (64 TSNs in one word: the last
+// slot of the window and the cumulative TSN share a bit position).
+func vh_C05_bmc_advance_ring_equals_window() {
+	q, m := vRPQStartWith([]uint32{64})
+	vRPQPushAccepted(q, m, "push1")
+	if vtier() > 0 {
+		vRPQPushAccepted(q, m, "push2")
+	}
+	vRPQAdvance(q, m, "advance")
+	vRPQInvariant(q, "after advance")
+	vRPQCompareLight(q, m, "after advance")
+	vcover("end")
+}
+
+// C05.L0: every TSN the queue admits can be reported: the window built for any receive buffer
+// size fits the 16-bit offsets of gap ack blocks and its bitmap (= C01.L4b).
+func vh_C05_L0_window_fits_gap_blocks() { vh_C01_L4_tracking_window_capacity() }
 
 // C05.L5 (BMC): gap ack blocks are sound and complete w.r.t. the model. The scan loop
 // chains trailing-zero computations on shifted bitmap words, which no available solver
